@@ -13,11 +13,11 @@ VARIABLES kname,   \* kernel: name -> semaphore id (0 = no such name)
           hp,      \* hp[h]: [pc, n, create, init, sem, created]
           apend    \* acquire in flight: "idle" | "called" | "done"
 vars == <<kname, ksem, hp, apend>>
-NoH == [pc |-> "none", n |-> 0, create |-> FALSE, init |-> 0, sem |-> 0, created |-> FALSE]
+NoH == [pc |-> "none", n |-> 0, create |-> FALSE, init |-> 0, sem |-> 0, created |-> FALSE, tries |-> 0]
 Init == kname = [n \in Names |-> 0] /\ ksem = <<>> /\ hp = [h \in Hids |-> NoH] /\ apend = [h \in Hids |-> "idle"]
 NewCall(h, n, init, create) ==
     /\ hp[h].pc = "none"
-    /\ hp' = [hp EXCEPT ![h] = [pc |-> "excl", n |-> n, create |-> create, init |-> init, sem |-> 0, created |-> FALSE]]
+    /\ hp' = [hp EXCEPT ![h] = [pc |-> "excl", n |-> n, create |-> create, init |-> init, sem |-> 0, created |-> FALSE, tries |-> 0]]
     /\ UNCHANGED <<kname, ksem, apend>>
 (* sem_open (key, O_CREAT | O_EXCL, 0660, init_val) *)
 OpenExcl(h) == LET n == hp[h].n IN
@@ -25,7 +25,7 @@ OpenExcl(h) == LET n == hp[h].n IN
     /\ IF kname[n] = 0
        THEN /\ ksem' = Append(ksem, hp[h].init) /\ kname' = [kname EXCEPT ![n] = Len(ksem) + 1]
             /\ hp' = [hp EXCEPT ![h].sem = Len(ksem) + 1, ![h].created = TRUE, ![h].pc = "ret_ok"]
-       ELSE /\ hp' = [hp EXCEPT ![h].pc = IF hp[h].create THEN "unlink" ELSE "plain"]
+       ELSE /\ hp' = [hp EXCEPT ![h].pc = IF hp[h].create THEN "unlink" ELSE "plain", ![h].tries = @ + 1]
             /\ UNCHANGED <<kname, ksem>>
     /\ UNCHANGED apend
 (* sem_unlink (key) in CREATE mode: removes the name whoever created it; ENOENT is ignored *)
@@ -75,6 +75,11 @@ AbsCreating == [h \in Hids |-> IF (hp[h].create /\ hp[h].pc \in {"excl", "unlink
                                THEN [n |-> hp[h].n, init |-> hp[h].init] ELSE [n |-> 0, init |-> 0]]
 Abs == INSTANCE SemAbs WITH gen <- kname, val <- ksem, hd <- AbsHd, apend <- apend, creating <- AbsCreating
 Refines == Abs!SSpec
+(* witnesses: negated reachability queries; TLC's counterexample is the shortest schedule that gets there and is   *)
+(* replayed on the real processes                                                                               *)
+W_CreateRacesCreate == \A h \in Hids : hp[h].tries < 2            \* a CREATE-mode open finds the name taken again after removing it
+W_OpenLosesName == \A h \in Hids : hp[h].pc # "ret_fail"          \* an OPEN-mode open whose name vanished between its two system calls
+W_OwnerKilledBetweenCloseAndUnlink == \A h \in Hids : ~(hp[h].pc = "free_unlink" /\ kname[hp[h].n] # 0 /\ \E k \in Hids : k # h /\ hp[k].pc = "open")
 (* a CREATE-mode open never reports failure *)
 CreateNeverFails == \A h \in Hids : hp[h].pc = "ret_fail" => ~hp[h].create
 ====
